@@ -81,6 +81,9 @@ struct Variant
 // recfield   recorder, uniform-field + Urban-MSC along-step with fluctuations (field driver,
 //            propagator, looping logic, UrbanMscParams consumers)
 // recchk     recorder + StatusChecker (debug status checking after every action)
+// recpart    recorder + charge-partitioned initialisation (init_charge): the per-event HISTORIES
+//            are compared under init_charge too (calo compares totals only); the serial reference
+//            uses the same order
 static std::vector<Variant> all_variants()
 {
     return {{"rec", false, TrackOrder::none},
@@ -88,7 +91,8 @@ static std::vector<Variant> all_variants()
             {"recsort", false, TrackOrder::reindex_particle_type},
             {"recsortact", false, TrackOrder::reindex_both_action},
             {"recfield", false, TrackOrder::none, false, AlongStep::field_msc_fluct},
-            {"recchk", false, TrackOrder::none, true}};
+            {"recchk", false, TrackOrder::none, true},
+            {"recpart", false, TrackOrder::init_charge}};
 }
 
 static std::unique_ptr<LoopProblem> make_problem(Variant const& v, unsigned streams, unsigned slots)
